@@ -1,6 +1,6 @@
 /-
   The constants of the C03/C04 model in two readings: `specCfg` is fixed from the property text
-  (900 s default max-age; http(s) location; loopback `127.0.0.1` / `[::1]`, IPv4 link-local `169.254`;
+  (900 s default max-age; http(s) location whose host is neither loopback nor IPv4 link-local — `Parse.locUsable`;
   the volatile headers date, cache-control, server, host, location), `genCfg` is what the source says
   now (`Gen/C03Tracker.lean`, regenerated on every run).  The driver runs the model with `genCfg` and
   the judges with `specCfg`; `Props/C03.lean` pins `genCfg = specCfg`.
@@ -14,9 +14,9 @@ def specCfg : Cfg :=
     ignored := ["cache-control", "date", "host", "location", "server"]
     privatePrefix := "_"
     searchPrefix := "http"
-    searchNeedles := ["://127.0.0.1", "://[::1]", "://169.254"]
+    searchNeedles := []
     advPrefix := "http"
-    advNeedles := ["://127.0.0.1", "://[::1]", "://169.254"]
+    advNeedles := []
     tMax := 251824463999999999          -- datetime.max - datetime(2020, 1, 1) (the harness' epoch), µs
     tdMaxUs := 86399999999999999999     -- timedelta.max, µs
     tdLimitSec := 86400000000000        -- 1000000000 days
@@ -26,10 +26,12 @@ def genCfg : Cfg :=
   { defaultMaxAgeSec := Gen.C03Tracker.defaultMaxAgeSec
     ignored := Gen.C03Tracker.ignoredHeaders
     privatePrefix := Gen.C03Tracker.privatePrefix
-    searchPrefix := Gen.C03Tracker.searchLocationPrefix
-    searchNeedles := Gen.C03Tracker.searchBadNeedles
-    advPrefix := Gen.C03Tracker.advLocationPrefix
-    advNeedles := Gen.C03Tracker.advBadNeedles
+    searchPrefix := Gen.C03Tracker.usablePrefix
+    searchNeedles := []
+    advPrefix := Gen.C03Tracker.usablePrefix
+    advNeedles := []
+    schemes := Gen.C03Tracker.usableSchemes
+    loopbackNames := Gen.C03Tracker.usableLoopbackNames
     -- CPython constants (datetime / timedelta / int digit limit), not in the library source:
     tMax := 251824463999999999
     tdMaxUs := 86399999999999999999
